@@ -4,6 +4,7 @@ Creates selftest/mutants/<name>.diff by editing /repo in place (restored afterwa
 and appends a line to selftest/mutants/INDEX.tsv."""
 import sys, subprocess, os
 name, prop, expect = sys.argv[1:4]
+kind = 'silent' if expect == 'SILENT' else 'mutants'
 edits = sys.argv[4:]
 assert len(edits) % 3 == 0
 assert subprocess.run(['git','-C','/repo','status','--porcelain'],capture_output=True,text=True).stdout == ''
@@ -18,8 +19,8 @@ try:
         open(p, 'w').write(s)
     d = subprocess.run(['git','-C','/repo','diff'],capture_output=True,text=True).stdout
     here = os.path.dirname(os.path.dirname(os.path.abspath(__file__)))
-    open(os.path.join(here,'selftest/mutants',name+'.diff'),'w').write(d)
-    idx = os.path.join(here,'selftest/mutants/INDEX.tsv')
+    open(os.path.join(here,'selftest/'+kind,name+'.diff'),'w').write(d)
+    idx = os.path.join(here,'selftest/'+kind+'/INDEX.tsv')
     lines = [l for l in (open(idx).read().splitlines() if os.path.exists(idx) else []) if not l.startswith(name+'\t')]
     lines.append('\t'.join([name, prop, expect]))
     open(idx,'w').write('\n'.join(lines)+'\n')
